@@ -38,6 +38,26 @@
    observations and the limit only.  [round_closed] (agreement) demands that a
    round ended with nobody inside and nobody waiting.
 
+   Requests.  The names in the observations are names of REQUESTS: a call of
+   Engine.Render, or a call of Engine.RenderPartials with a list of partials
+   (a partial whose template calls the blocking function, a partial of plain
+   text, an unknown partial).  A request is inside while a template of it is
+   executing (the blocking function was called and the driver has not told it
+   to go on); when the driver tells a partial that is not the last one to
+   return normally the request is counted as waiting again until its next
+   partial reports ([w_moved]: the emitter turns it into RNext; the oracle uses
+   it for "a request that got the context error was not inside since it went
+   to the gate").  The engine may be in debug mode ([dbg]; the model is the same
+   machine in both modes).  The events are request events of Models/Gate.v
+   (RCall/REnd/REnter/RNext/RReturn/RError); the render names inside them are
+   chosen by the emitter (request * 8 + number of the partial) and only have
+   to be fresh, which the machine checks.  Order within a window: RCall, REnd,
+   RNext of requests told to go on, RReturn of requests that were inside,
+   RError of waiting requests that returned the context error, then the
+   requests that passed the gate (once per partial) and returned within the
+   window, then the requests newly inside (after passing through the plain
+   text partials in front of the blocking one).
+
    agree  : the acceptor M accepts the whole trace, after every window its
             inflight/waiting sets are the observed inside/waiting sets,
             GetRateLimit() is the configured limit, and each render left the
@@ -56,12 +76,13 @@ Definition cls_eqb (a b : cls) : bool :=
   end.
 
 Record win := {
-  w_events   : list gate_event;
+  w_events   : list req_event;
   w_entered  : list rid;
   w_ended    : list rid;
   w_inside   : list rid;
   w_waiting  : list rid;
   w_returned : list (rid * cls);
+  w_moved    : list rid;    (* requests inside that the driver told in this window to go on to their next partial *)
 }.
 
 Record round09 := {
@@ -72,6 +93,7 @@ Record round09 := {
 
 Record case09 := {
   cfg       : nat;                   (* configured limit (WithRateLimit or Inject) *)
+  dbg       : bool;                  (* Engine.Debug *)
   go_limit  : nat;                   (* GetRateLimit() *)
   wins      : list win;
   cancels   : list (rid * bool);     (* cancel of a waiter while the gate stays full: render, caller returned
@@ -83,7 +105,7 @@ Record case09 := {
 
 (* a round as a history of its own on a gate with the same limit *)
 Definition round_case (c : case09) (r : round09) : case09 :=
-  {| cfg := cfg c; go_limit := go_limit c; wins := r_wins r; cancels := r_cancels r;
+  {| cfg := cfg c; dbg := dbg c; go_limit := go_limit c; wins := r_wins r; cancels := r_cancels r;
      commanded := r_commanded r; refill_ok := true; rounds := [] |}.
 
 Fixpoint assoc {A} (r : rid) (l : list (rid * A)) : option A :=
@@ -116,13 +138,22 @@ Fixpoint ok_gone (gone : list rid) (ws : list win) : bool :=
     forallb (fun r => negb (memr r gone')) (w_inside w) && ok_gone gone' t
   end.
 
-(* a cancelled waiter returned in time, with a context error, and never was inside *)
+(* the windows since the request went back to the gate for the last time (all of them
+   for a request with one render) *)
+Fixpoint since_moved (q : rid) (ws : list win) : list win :=
+  match ws with
+  | [] => []
+  | w :: t => if existsb (fun w' => memr q (w_moved w')) t then since_moved q t else w :: t
+  end.
+
+(* a cancelled waiter returned in time, with a context error, and was not inside
+   (since it went to the gate where it was cancelled) *)
 Definition ok_cancels (c : case09) : bool :=
   forallb (fun rb : rid * bool =>
              let (r, prompt) := rb in
              prompt
              && match assoc r (all_returned c) with Some k => cls_eqb k c_ctx_error | None => false end
-             && forallb (fun w => negb (memr r (w_inside w))) (wins c))
+             && forallb (fun w => negb (memr r (w_inside w))) (since_moved r (wins c)))
           (cancels c).
 
 (* contexts ([over] = the renders whose context is known to be over, cumulative):
@@ -142,13 +173,14 @@ Fixpoint ok_ctx (over : list rid) (ws : list win) : bool :=
   end.
 
 (* takes no slot, as far as a single call shows it: who got the context error was
-   never past the gate.  (A slot that is taken and kept by such a call shows in
+   not past the gate since it went there (a request for several partials: since it
+   went back there after the last partial that was rendered).  (A slot that is taken and kept by such a call shows in
    [ok_no_stall] - somebody waits below the limit - and in [refill_ok].) *)
 Definition ok_ctx_outside (c : case09) : bool :=
   forallb (fun rk : rid * cls =>
              negb (cls_eqb (snd rk) c_ctx_error)
              || forallb (fun w => negb (memr (fst rk) (w_inside w)) && negb (memr (fst rk) (w_entered w)))
-                        (wins c))
+                        (since_moved (fst rk) (wins c)))
           (all_returned c).
 
 Definition oracle1 (c : case09) : bool :=
@@ -164,12 +196,12 @@ Definition oracle09 (c : case09) : bool :=
 
 (* ------------------------------------------------------------ agreement with M *)
 
-Fixpoint accept (s : option gate_state) (ws : list win) : bool :=
+Fixpoint accept (s : option req_state) (ws : list win) : bool :=
   match ws with
   | [] => match s with Some _ => true | None => false end
   | w :: t =>
-    match run s (w_events w) with
-    | Some s' => same_set (inflight s') (w_inside w) && same_set (waiting s') (w_waiting w)
+    match req_run s (w_events w) with
+    | Some s' => same_set (q_inside s') (w_inside w) && same_set (q_waiting s') (w_waiting w)
                  && accept (Some s') t
     | None => false
     end
@@ -194,9 +226,9 @@ Definition class_fits (c : case09) (cancelled : list rid) (rk : rid * cls) : boo
     end.
 
 Definition agree1 (c : case09) : bool :=
-  let cancelled := cancelled_of (flat_map w_events (wins c)) in
+  let cancelled := req_errors (flat_map w_events (wins c)) in
   (go_limit c =? get_rate_limit (gate_init (cfg c)))
-  && accept (Some (gate_init (cfg c))) (wins c)
+  && accept (Some (req_init (cfg c))) (wins c)
   && forallb (class_fits c cancelled) (all_returned c).
 
 (* a round ends at an empty gate (that is what lets the next one start afresh) *)
@@ -212,13 +244,13 @@ Definition agree09 (c : case09) : bool :=
 Definition judge (c : case09) : nat := verdict true (oracle09 c) (agree09 c).
 
 (* diagnostic: the model state after each window (None from the first rejected window on) *)
-Fixpoint model_states (s : option gate_state) (ws : list win) : list (option (list rid * list rid)) :=
+Fixpoint model_states (s : option req_state) (ws : list win) : list (option (list rid * list rid)) :=
   match ws with
   | [] => []
   | w :: t =>
-    let s' := run s (w_events w) in
+    let s' := req_run s (w_events w) in
     match s' with
-    | Some x => Some (inflight x, waiting x)
+    | Some x => Some (q_inside x, q_waiting x)
     | None => None
     end :: model_states s' t
   end.
